@@ -19,6 +19,7 @@ partial def loop (inp : IO.FS.Stream) (out : IO.FS.Stream) : IO Unit := do
   if line.isEmpty then return ()
   let l := if line.endsWith "\n" then (line.dropEnd 1).toString else line
   out.putStrLn (answer l)
+  out.flush
   loop inp out
 
 end Driver
